@@ -21,7 +21,7 @@ ASSUMPTIONS = ['numpy comparison semantics for NaN', 'np.argsort returns a '
 
 
 def check(ctx):
-    stats.check_bonferroni(ctx)
+    ctx.run(stats.check_bonferroni)
 
 
 def variants(program):
